@@ -3,30 +3,12 @@
    Proofs/SolveGen.v). *)
 From Coq Require Import List Bool Arith Lia Permutation.
 Import ListNotations.
-Require Import PV.TypeVar.Base PV.TypeVar.Model PV.Proofs.SolveLaws.
+Require Import PV.TypeVar.Base PV.TypeVar.Model PV.TypeVar.Spec PV.Proofs.SolveLaws.
 
 Section Main.
   Context {V : Type} (O : ops V).
   Hypothesis L : acc_laws O.
   Context (limit : nat).
-
-  (* what the property demands of the value chosen for a type variable *)
-  Definition satisfies (v : V) (bs : list (bound V)) : Prop :=
-    (forall l, In l (lowers bs) -> acc O v l = true) /\
-    (forall u, In u (uppers bs) -> acc O u v = true) /\
-    (forall cs, In cs (oneofs bs) -> In v cs \/ is_any O v = true).
-
-  Definition is_nil {A} (l : list A) : bool := match l with [] => true | _ => false end.
-
-  (* guard of the combined soundness theorem: upper bounds comparable and not
-     Any, and explicit upper bounds are not mixed with constraints (the chosen
-     constraint is never tested against upper bounds) *)
-  Definition sound_guard (bs : list (bound V)) : bool :=
-    uppers_ok O (uppers bs) &&
-    (is_nil (oneofs bs) || (is_nil (uppers bs) && (length (oneofs bs) <=? 1))).
-
-  Definition perm_guard (bs : list (bound V)) : bool :=
-    uppers_ok O (uppers bs) && (length (oneofs bs) <=? 1).
 
   Lemma lift_acc : forall ls b v l, lower_inv O ls b -> acc O v b = true -> In l ls -> acc O v l = true.
   Proof.
@@ -132,7 +114,7 @@ Section Main.
     - lia.
   Qed.
 
-  Lemma sound_guard_spec : forall bs, sound_guard bs = true ->
+  Lemma sound_guard_spec : forall bs, sound_guard O bs = true ->
     uppers_ok O (uppers bs) = true /\
     (oneofs bs = [] \/ (uppers bs = [] /\ length (oneofs bs) <= 1)).
   Proof.
@@ -146,7 +128,7 @@ Section Main.
 
   (* 4. accepted => the chosen value satisfies all bounds — under the guard *)
   Theorem msolve_sound_partial : forall bs v,
-    msolve O limit bs = Sol v -> sound_guard bs = true -> satisfies v bs.
+    msolve O limit bs = Sol v -> sound_guard O bs = true -> satisfies O v bs.
   Proof.
     intros bs v Hs Hg. apply sound_guard_spec in Hg. destruct Hg as [Hok Hmix].
     split; [|split].
@@ -161,7 +143,7 @@ Section Main.
 
   (* "when no such value exists the call is diagnosed" *)
   Theorem msolve_unsat_is_error_partial : forall bs,
-    (forall v, ~ satisfies v bs) -> sound_guard bs = true -> msolve O limit bs = Err.
+    (forall v, ~ satisfies O v bs) -> sound_guard O bs = true -> msolve O limit bs = Err.
   Proof.
     intros bs Hun Hg. destruct (msolve O limit bs) as [v|] eqn:Hs; [|reflexivity].
     exfalso. apply (Hun v). apply msolve_sound_partial; assumption.
@@ -169,7 +151,7 @@ Section Main.
 
   (* converse: an error means no (non-Any) value satisfies the bounds *)
   Theorem msolve_error_means_unsat_partial : forall bs v,
-    msolve O limit bs = Err -> sound_guard bs = true -> is_any O v = false -> ~ satisfies v bs.
+    msolve O limit bs = Err -> sound_guard O bs = true -> is_any O v = false -> ~ satisfies O v bs.
   Proof.
     intros bs v He Hg Hv (Hlo & Hup & Hone).
     apply sound_guard_spec in Hg. destruct Hg as [Hok Hmix].
@@ -265,7 +247,7 @@ Section Main.
   Qed.
 
   Theorem msolve_perm_verdict_partial : forall bs bs',
-    Permutation bs bs' -> perm_guard bs = true ->
+    Permutation bs bs' -> perm_guard O bs = true ->
     is_err (msolve O limit bs) = is_err (msolve O limit bs').
   Proof.
     intros bs bs' P Hg. unfold perm_guard in Hg. apply andb_prop in Hg. destruct Hg as [Hok Hlen].
